@@ -82,7 +82,7 @@ Definition init (m : mode) : state := mkS m Fresh false false SNone [] 0 false [
 
 Inductive label :=
 (* starters *)
-| StInvoke (i : nat) | StAtomic (i : nat) | StReturnErr (i : nat)
+| StInvoke (i : nat) | StAtomic (i : nat) | StReturnErr (i : nat) | StFail (i : nat)
 (* serve loop *)
 | Notify | SFailStart | SCheck | SAcceptOk (c : nat) | SAcceptErr | SFatal | SErrCheck | SSpawn
 | SSetDlL | SPacket (p : nat) | SReadErr | SWaitDone | SReturn (v : retv)
@@ -179,6 +179,16 @@ Definition step (s : state) (l : label) : option state :=
   | StReturnErr i =>
     match find_a i (sts s) with
     | Some StFailed => Some (set_sts s (upd_a i StDone (sts s)))
+    | _ => None
+    end
+  | StFail i =>
+    (* a start call on a server that is not started fails before srv.started is
+       set: ListenAndServe with a bad network, tcp-tls without certificates, a
+       listen error (address in use, bad address), setUDPSocketOptions error;
+       ActivateAndServe without listeners.  It returns its error under the
+       deferred unlock; nothing of the server changes. *)
+    match find_a i (sts s) with
+    | Some StPending => if is_running s then None else Some (set_sts s (upd_a i StDone (sts s)))
     | _ => None
     end
   (* ---------------- serve loop *)
